@@ -1130,7 +1130,9 @@ def gen_C13(rnd, n, tier):
         deflines = ["const B0 = %s" % defs["B0"][0], "const S1 = B0 + %s" % defs["S1"][2], "const A2 = %s" % " ".join(form)]
         tm = ["setvar(VAR_B, A2)", "addvar(VAR_C, S1 %s 3, S1)" % op2, "foo(2 %s S1, A2 %s A2)" % (op2, op), "if (var(VAR_C) == 3 %s S1 - 1) { a }" % op2,
               "switch (var(VAR_D)) { case A2: b case S1 %s 7: c }" % op2, "while (var(VAR_E) < S1 %s 2) { w }" % op, "if (flag(FLAG_BASE + A2)) { f }",
-              "switch (specialvar(VAR_F, A2)) { case 1: s }", "if (var(VAR_G) >= value(A2)) { v }"]
+              "switch (specialvar(VAR_F, A2)) { case 1: s }", "if (var(VAR_G) >= value(A2)) { v }",
+              # round 16: constants at a non-first position of a multi-token case value / comparison value / argument
+              "switch (var(VAR_H)) { case B0: p case 1 + S1: q case B0 + A2: r case 2 %s B0 + B0: u }" % op2, "if (var(VAR_I) == 1 + B0 - S1) { i }", "bar(1 + B0, VAR_J + S1 + B0, (3) B0)"]
         k0 = r2.randint(0, len(tm) - 1); stmts = [tm[(k0 + j * 2) % len(tm)] for j in range(r2.randint(2, 5))]
         tops = ["script S { %s }" % " ".join(stmts), "mapscripts MS { T [ VAR_T, A2: L1  VAR_U, S1 %s 2 { z } ] }" % op]
         name_re = re.compile(r"(?<![\w])(B0|S1|A2)(?![\w])")
